@@ -9,7 +9,7 @@
 (* (loaded), whether a second export equals the first one, and the states   *)
 (* of both after the same edit was applied to each.                         *)
 (***************************************************************************)
-EXTENDS Naturals, Sequences, FiniteSets, TLC, Json
+EXTENDS EFJson, Json
 CONSTANTS TraceFile
 Events == ndJsonDeserialize(TraceFile)
 N == Len(Events)
@@ -29,8 +29,16 @@ SameState(e, a, b, what) ==
     /\ IF DiffKeys(a.inputs, b.inputs) # {} THEN Fail(e, what \o ":input-values-differ", DiffKeys(a.inputs, b.inputs)) ELSE TRUE
     /\ IF DiffKeys(a.results, b.results) # {} THEN Fail(e, what \o ":recomputed-results-differ", DiffKeys(a.results, b.results)) ELSE TRUE
 
+(* the rounding rule of EFJson on the hourly inputs themselves (1e-4 units): loaded = original rounded to 3 decimals *)
+HourlyRule(e, a, b) ==
+    LET bad == {k \in DOMAIN a.hourly \cap DOMAIN b.hourly :
+                  /\ \A n \in DOMAIN a.hourly[k] : ~IsTie(a.hourly[k][n])
+                  /\ b.hourly[k] # RoundSeq(a.hourly[k])}
+    IN  IF bad # {} THEN Fail(e, "loaded:hourly-input-is-not-the-3-decimal-rounding-of-the-original", bad) ELSE TRUE
+
 Check(e) ==
     CASE e.ev = "RoundTrip" ->
+           /\ IF e.load_error = "none" THEN HourlyRule(e, e.orig, e.loaded) ELSE TRUE
            /\ IF e.load_error # "none" THEN Fail(e, "load-raised:" \o e.flavour, e.load_error) ELSE TRUE
            /\ IF e.load_error = "none" THEN SameState(e, e.orig, e.loaded, "loaded") ELSE TRUE
            /\ IF e.load_error = "none" /\ ~e.second_export_equal THEN Fail(e, "second-export-differs", e.export_diff) ELSE TRUE
